@@ -21,7 +21,10 @@ BUDGET = {'quick': (600, 1500), 'thorough': (1500, 3600)}
 
 B64 = 'ABCDEFGHIJKLMNOPQRSTUVWXYZabcdefghijklmnopqrstuvwxyz0123456789+/'
 LABEL = {'pub': 'PUBLIC KEY BLOCK', 'priv': 'PRIVATE KEY BLOCK', 'msg': 'MESSAGE', 'sig': 'SIGNATURE', 'clear': 'SIGNED MESSAGE'}
-HEADERSETS = [[], [['Version', 'vf 1.0']], [['Version', 'x'], ['Comment', 'a: b: c'], ['Charset', 'utf-8']], [['Comment', 'café ü']]]
+HEADERSETS = [[], [['Version', 'vf 1.0']], [['Version', 'x'], ['Comment', 'a: b: c'], ['Charset', 'utf-8']], [['Comment', 'café ü']],
+              # values with inner runs of blanks, a tab, a blank at the end, dashes and an equals sign: carried as given
+              [['Comment', 'aligned  with   blanks'], ['Version', 'tab\there']], [['Comment', 'ends with a blank '], ['MessageID', '=AbC+/9-----x']],
+              [['Comment', 'x' * 200], ['Hash', 'SHA256, SHA512']]]
 
 
 def cases(tier, seed):
@@ -97,7 +100,9 @@ def check_text(ctx, kind, obj, text, headers, where):
     for a, b in headers:
         if (a, b) not in [tuple(x) for x in d['headers']] and ('%s: %s' % (a, b)) not in text:
             ctx.fail('armor-header-missing', {'where': where, 'header': [a, b]})
-    for line in text.split('\n'):
+    tl = text.split('\n')
+    body_from = next((i_ for i_, l_ in enumerate(tl) if l_.rstrip('\r') == ''), 0)      # header lines may be as long as they like (6.2)
+    for line in tl[body_from:]:
         if len(line.rstrip('\r')) > 76 and not kind == 'clear':
             ctx.fail('armor-line-too-long', {'where': where, 'len': len(line)})
     return d
